@@ -343,6 +343,25 @@ def eval_op(line, extra=None):
         except Exception as e:  # noqa
             return errstr(e)
         return msgstr(m)
+    if op == "getbit":
+        try:
+            return "gb %d" % rh.get_bit(unhx("" if tok[1] == "-" else tok[1]), int(tok[2]))
+        except Hang:
+            raise
+        except Exception as e:  # noqa
+            return errstr(e)
+    if op in ("escall", "tow", "hextbl"):
+        try:
+            if op == "escall":
+                return "es " + hx(rh.escapeall(unhx("" if tok[1] == "-" else tok[1])).encode("latin-1"))
+            if op == "tow":
+                t = rh.tow2utc(int(tok[1]))
+                return "tod %d %d %d %d" % (t.hour, t.minute, t.second, t.microsecond)
+            return "ht " + hx(rh.hextable(unhx("" if tok[1] == "-" else tok[1]), int(tok[2])).encode("latin-1"))
+        except Hang:
+            raise
+        except Exception as e:  # noqa
+            return errstr(e)
     if op == "brepr":
         return repr(unhx("" if tok[1] == "-" else tok[1]))
     if op == "beval":
